@@ -131,6 +131,9 @@ pub fn bodies() -> Vec<String> {
         "no markup, only text with ü and 漢".into(),
         // > 64 KiB of plain text in few compressed bytes: one compressed chunk inflates past the codecs' internal buffers
         "<html><body><div>big</div>".to_string() + &"<p>0123456789 répétition abcdefghijklmnopqrstuvwxyz</p>".repeat(1400) + "</body></html>",
+        // one single token of 1.2 MiB (an inline style sheet), highly compressible: whatever the HTML stage holds between two calls
+        // grows past any "reasonable" limit while the compressed chunks stay tiny
+        "<html><head><style>".to_string() + &"div > p.k { color: #123456; margin: 0 auto }\n".repeat(28_000) + "</style></head><body><div>x</div></body></html>",
         // ~200 KiB of high-entropy text: one filter() call makes the re-encoder emit far more than its internal buffer
         {
             let mut s = String::from("<html><body><div>noise</div><p>");
